@@ -43,8 +43,11 @@ CHECKS["C01"] = dict(
           "is sound; the duality-gap lower bound; the two classical GJK lemmas; the no-improvement exit reports the exact distance (partial: "
           "under two hypotheses about the simplex solver - its result is a minimum-norm point of the hull of its rows, the current closest point "
           "lies in the hull of the current rows - which C18 proves for the line and the non-degenerate triangle arms and REFUTES inside the "
-          "solver's epsilon bands (C18_jolt_refuted: false in general for tetrahedra); not discharged here, and no Example exercises the "
-          "hypotheses of C01_exact_on_stall_partial together: C01_loop_nonvacuous is the initial state only). Tie model/code: the support points "
+          "solver's epsilon bands (C18_jolt_refuted: false in general for tetrahedra); not discharged here; "
+          "C01_exact_on_stall_nonvacuous exhibits a concrete state of the loop model, the one after the first iteration on two points at "
+          "distance 2, that meets all eight hypotheses together). The clipping early-out and the closest-point reconstruction are exercised "
+          "by a stream of big shapes under default clipping and by 4000 (thorough 30000) further pairs of curved colliders that are run and "
+          "screened by a float test, the suspicious ones going to the checker. Tie model/code: the support points "
           "the implementation obtained in "
           "iteration i are replayed through step i of the model, which must reproduce every search direction, the iteration count, the exit and "
           "(d, a, b); a difference is excused only if the model's own discrete behaviour changes under ~1-10 ulp perturbations of the trace "
